@@ -143,7 +143,7 @@ theorem act_handleInactivity (h : Act s) : Act (handleInactivity s now).1 := by
 theorem act_handleAckTimer (h : Act s) (b : Bool) : Act (handleAckTimer s now b) := by
   simp only [handleAckTimer]
   repeat' split
-  all_goals act_go [act_abandon, act_handleFault]
+  all_goals act_go [act_abandon, act_handleFault, act_shutdown]
 theorem act_handleTimeout (h : Act s) : Act (handleTimeout s now) := by
   have h1 : Act (handleInactivity (handleDelayed s now) now).1 :=
     act_handleInactivity (act_frame h (state_handleDelayed _ _) (timer_handleDelayed _ _))
